@@ -55,6 +55,20 @@ func decodeVia(entry string, frame []byte) (p mq.ControlPacket, err error, pan *
 				mk = api.NewZero
 			} else if _, e := fmt.Sscanf(entry, "UnmarshalNew:%d", &n); e == nil {
 				mk = api.NewPacket
+			} else if _, e := fmt.Sscanf(entry, "UnmarshalUsed:%d", &n); e == nil {
+				// a value that already holds a decoded packet of its type
+				mk = func(n int) mq.ControlPacket {
+					v := api.NewPacket(n)
+					for _, s := range fuzzSeeds() {
+						if int(s[0]>>4) == n {
+							if _, _, b, ok := ref.Split(s); ok {
+								_ = v.UnmarshalBinary(append([]byte(nil), b...))
+							}
+							break
+						}
+					}
+					return v
+				}
 			} else {
 				panic("unknown entry " + entry)
 			}
